@@ -118,6 +118,59 @@ pub fn in_fresh_thread_limited<T: Send + 'static>(f: impl FnOnce() -> T + Send +
     }
 }
 
+/// Worker side of `isolated_map`: one case line in, one response line out (fields separated by tabs), flushed.
+pub fn worker_loop(mut f: impl FnMut(&str) -> Vec<String>) {
+    use std::io::{BufRead, Write};
+    let stdin = std::io::stdin();
+    let stdout = std::io::stdout();
+    for line in stdin.lock().lines() {
+        let line = match line { Ok(l) => l, Err(_) => break };
+        if line.trim().is_empty() { continue; }
+        let out = f(&line).join("\t");
+        let mut o = stdout.lock();
+        let _ = writeln!(o, "{}", out);
+        let _ = o.flush();
+    }
+}
+
+/// Run every case in a worker subprocess (`<this exe> <component> worker`).  A case that exceeds the wall-clock limit
+/// (VERIF_CASE_TIMEOUT, default 20 s) or the worker's address-space limit (12 GB) gets `on_limit` as its response, the
+/// worker is killed and a new one started: a runaway case can neither hold up nor starve the rest of the run.
+pub fn isolated_map(component: &str, lines: &[String], on_limit: &[String]) -> Vec<Vec<String>> {
+    use std::io::{BufRead, BufReader, Write};
+    use std::process::{Command, Stdio};
+    let secs: u64 = std::env::var("VERIF_CASE_TIMEOUT").ok().and_then(|s| s.parse().ok()).unwrap_or(20);
+    let exe = std::env::current_exe().unwrap();
+    let spawn = || {
+        let mut ch = Command::new("sh")
+            .arg("-c").arg(format!("ulimit -v 12000000 2>/dev/null; exec \"{}\" {} worker", exe.display(), component))
+            .env("VERIF_CASE_TIMEOUT", "1000000")
+            .stdin(Stdio::piped()).stdout(Stdio::piped()).stderr(Stdio::null())
+            .spawn().expect("harness: cannot start worker");
+        let out = ch.stdout.take().unwrap();
+        let (tx, rx) = std::sync::mpsc::channel::<String>();
+        std::thread::spawn(move || { for l in BufReader::new(out).lines() { match l { Ok(l) => { if tx.send(l).is_err() { break; } } Err(_) => break } } });
+        (ch, rx)
+    };
+    let (mut ch, mut rx) = spawn();
+    let mut res = vec![];
+    for l in lines {
+        let ok = { let si = ch.stdin.as_mut().unwrap(); writeln!(si, "{}", l).is_ok() && si.flush().is_ok() };
+        let r = if ok { rx.recv_timeout(std::time::Duration::from_secs(secs)).ok() } else { None };
+        match r {
+            Some(resp) => res.push(resp.split('\t').map(|x| x.to_string()).collect()),
+            None => {
+                let _ = ch.kill(); let _ = ch.wait();
+                res.push(on_limit.to_vec());
+                let (c2, r2) = spawn(); ch = c2; rx = r2;
+            }
+        }
+    }
+    drop(ch.stdin.take());
+    let _ = ch.wait();
+    res
+}
+
 pub fn timeout_obs() -> Sx { lst(vec![sym("obs"), lst(vec![sym("res"), sym("timeout")])]) }
 
 pub struct Args {
